@@ -12,6 +12,8 @@ first-principles oracle (rules/oracle/gregorian.py), for the whole supported ran
  RF2-jan00    the year-start formula __jan00_daisy (a closed formula without control flow, folded over every supported year)
  RF2-base     day-number bases (Lilian, Julian, Matlab) and the Unix epoch base, seconds per day
  RF2-range    the validity bound of __daisy_to_ymd covers every day of the supported range
+ RF9-yearadj  the readjustment tests of __daisy_get_year agree with each other and with the convention day count = year start +
+              day of year (>= 1)
  RF1-conv     every converter dt_conv_to_* handles every source representation the property names
 """
 import re
@@ -498,6 +500,48 @@ def check_range(P, R, tu, base):
         R.finding(rule, fn, "upper bound %d" % bound, "day counts up to %d are accepted, beyond %d-12-31 (day %d): the 12-bit year wraps" % (bound, ymax, last), node)
 
 
+def check_yearadj(P, R, tu):
+    """the year of a day count: estimate, then step back while the year's day 0 is not before the day.  __yd_to_daisy defines
+    the convention (day count = year start + day of year, day of year >= 1), so `start >= d` is the only test that is right
+    on the last day of a year; the two readjustments are siblings and must agree with it"""
+    rule = "RF9-yearadj"
+    fn = tu.func("__daisy_get_year")
+    ydd = tu.func("__yd_to_daisy")
+    if fn is None or ydd is None:
+        raise AnalysisBroken("__daisy_get_year / __yd_to_daisy vanished")
+    R.saw(fn)
+    R.saw(ydd)
+    # convention: __yd_to_daisy returns __jan00_daisy(y) + yday without offset
+    conv = False
+    for r in ydd.walk():
+        if r.get("k") == "ReturnStmt" and kids(r):
+            e = strip(kids(r)[0])
+            if e is not None and e.get("k") == "BinaryOperator" and e.get("op") == "+":
+                a, b = strip(e["c"][0]), strip(e["c"][1])
+                if a.get("k") == "CallExpr" and a.get("callee") == "__jan00_daisy" and b.get("k") == "MemberExpr":
+                    conv = True
+    if not conv:
+        raise AnalysisBroken("%s: __yd_to_daisy is no longer year start + day of year; the convention the rule relies on changed" % rule)
+    d = fn.params[0]["d"]
+    tests = []
+    for x in fn.walk():
+        if x.get("k") == "BinaryOperator" and x.get("op") in ("<", "<=", ">", ">=", "==", "!="):
+            l, r = strip(x["c"][0]), strip(x["c"][1])
+            for a, b, op in ((l, r, x["op"]), (r, l, {"<": ">", ">": "<", "<=": ">=", ">=": "<=", "==": "==", "!=": "!="}[x["op"]])):
+                if a is not None and a.get("k") == "CallExpr" and a.get("callee") == "__jan00_daisy" and b is not None \
+                        and b.get("k") == "DeclRefExpr" and b.get("d") == d:
+                    tests.append((op, x))
+    if len(tests) < 1:
+        raise AnalysisBroken("%s: readjustment tests of __daisy_get_year not recognised" % rule)
+    for i, (op, x) in enumerate(tests):
+        if op == ">=":
+            R.ob(rule, "__daisy_get_year: readjustment %d steps back while year start >= day" % (i + 1), True)
+        else:
+            R.finding(rule, fn, "readjustment %d" % (i + 1), "readjustment %d steps back on `year start %s day`; a year's days are the day counts "
+                      "after its start (day of year >= 1), so the test must be `>=`: the last day of a year is put into the following "
+                      "year" % (i + 1, op), x)
+
+
 SOURCES = ("DT_YMD", "DT_YMCW", "DT_YWD", "DT_YD", "DT_DAISY", "DT_LDN", "DT_JDN", "DT_MDN")
 TARGETS = ("dt_conv_to_daisy", "dt_conv_to_ymd", "dt_conv_to_ymcw", "dt_conv_to_ywd", "dt_conv_to_yd")
 
@@ -537,6 +581,7 @@ def check(P, R, tier):
     base = check_jan00(P, R, tu)
     check_bases(P, R, tu, dtu, base)
     check_range(P, R, tu, base)
+    check_yearadj(P, R, tu)
     check_conv(P, R, tu)
 
 
